@@ -21,6 +21,7 @@ import (
 	"golang.org/x/crypto/pbkdf2"
 	"pgregory.net/rapid"
 
+	"github.com/jech/galene/group"
 	"github.com/jech/galene/token"
 	"github.com/jech/galene/verifkit"
 )
@@ -36,6 +37,7 @@ type c17World struct {
 	tokExp   string   // expired admin token for g1
 	tokRoot  string   // root-scoped, subgroup-covering admin token
 	tokUser  string   // a token existing in g1 (target of token endpoints)
+	held     bool     // the server holds the groups in memory
 }
 
 var c17n int
@@ -104,7 +106,25 @@ func newC17World() *c17World {
 	return w
 }
 
+// hold makes the running server hold the groups in memory (as after somebody joined or asked for their status): requests
+// are then answered from, and authorised against, the cached definitions for as long as the server believes the files unchanged.
+func (w *c17World) hold() {
+	if !w.held {
+		return
+	}
+	for _, g := range []string{w.g1, w.g2, w.sub} {
+		if group.Get(g) == nil {
+			if _, err := os.Stat(filepath.Join(w.rig.groups, filepath.FromSlash(g)+".json")); err == nil {
+				group.Add(g, nil)
+			}
+		}
+	}
+}
+
 func (w *c17World) cleanup() {
+	for _, g := range []string{w.sub, w.g1, w.g2} {
+		group.Delete(g)
+	}
 	for _, g := range []string{w.sub, w.g1, w.g2} {
 		os.Remove(filepath.Join(w.rig.groups, filepath.FromSlash(g)+".json"))
 	}
@@ -207,9 +227,12 @@ func TestVerif_C17_AuthMatrix(t *testing.T) {
 	rapid.Check(t, func(t *rapid.T) {
 		w := newC17World()
 		defer w.cleanup()
+		w.held = rapid.Bool().Draw(t, "groupsHeldInMemory")
+		c17Rec.ClassIf(w.held, "groups_held_in_memory_by_the_server")
 		creds := w.creds()
 		nreq := rapid.IntRange(4, 20).Draw(t, "nreq")
 		for i := 0; i < nreq; i++ {
+			w.hold()
 			g := rapid.SampledFrom([]string{w.g1, w.g1, w.g2, w.sub}).Draw(t, "group")
 			routes := w.routes(g)
 			rt := routes[rapid.IntRange(0, len(routes)-1).Draw(t, "route")]
@@ -370,7 +393,10 @@ func TestVerif_C17_UpdatePreservation(t *testing.T) {
 		kinds := map[string]bool{}
 		acked := 0
 		n := rapid.IntRange(1, 10).Draw(t, "nupdates")
+		w.held = rapid.Bool().Draw(t, "groupsHeldInMemory")
+		c17uRec.ClassIf(w.held, "groups_held_in_memory_by_the_server")
 		for i := 0; i < n; i++ {
+			w.hold()
 			before := rig.readGroup(g)
 			op := rapid.SampledFrom([]string{"desc", "desc", "user-put", "user-new", "user-del", "pw-put", "pw-post", "pw-del", "keys-put", "keys-del", "wild-put"}).Draw(t, "op")
 			user := rapid.SampledFrom([]string{"alice", "bob", "gadmin"}).Draw(t, "user")
